@@ -3548,9 +3548,10 @@ class Canon:
                     if m is not None and not m.decorator_list and not any(f"{b_.name}.{f.attr}" in known for b_ in ek.mro):
                         return explicit_super(m, kd), True, prep
                     return None
+            in_classmethod = any(u(d_) == "classmethod" for d_ in fn.decorator_list) and fn.args.args and fn.args.args[0].arg == "cls"
             if isinstance(f, ast.Attribute) and isinstance(f.value, ast.Name) and (
-                    (f.value.id == "self" and cls is not None) or f.value.id in local_types):
-                k = cls if f.value.id == "self" else local_types[f.value.id]
+                    (f.value.id == "self" and cls is not None) or f.value.id in local_types or (f.value.id == "cls" and cls is not None and in_classmethod)):
+                k = cls if f.value.id in ("self", "cls") and f.value.id not in local_types else local_types[f.value.id]
                 name = f.attr
                 if name in keep:
                     return None
@@ -3564,6 +3565,8 @@ class Canon:
                 if any(u(d) in ("property", "staticmethod", "classmethod", "cached_property") for d in m.decorator_list):
                     if any(u(d) == "staticmethod" for d in m.decorator_list):
                         return m, False, prep
+                    if [u(d) for d in m.decorator_list] == ["classmethod"] and f.value.id == "cls" and in_classmethod:
+                        return explicit_super(m, kd), True, prep      # a hook classmethod called on the class the classmethod runs for
                     return None
                 return explicit_super(m, kd), True, prep
             if isinstance(f, ast.Attribute) and norm.is_reference(f.value) and f.attr.startswith("_") and not f.attr.startswith("__") and f.attr not in keep:
